@@ -7,13 +7,13 @@ from ..compare import Failure, check, lib
 from ..sub import Sub
 
 RULE = "Non-trivial: |b| >= 2 given unsorted, or R >= 2 with N >= 2 points (layout r*N+n visible)."
-BOUNDS = {"D": "2..6", "R": "1..4", "N": "1..3"}
+BOUNDS = {"D": "2..8 and 17, 24, 33", "R": "1..4", "N": "1..3"}
 ASSUMPTIONS = ["product rule with joint and marginal evaluated by numpy from (mu, Sigma)",
                "conditional parameters compared with the covariance-form Schur complement (the library uses the precision form)"]
 
 
 def _pool(tier):
-    base = [(2, 1, 1), (3, 2, 2), (4, 3, 1), (2, 2, 3), (5, 1, 2), (3, 4, 2), (6, 2, 1), (4, 1, 3), (7, 1, 1)]
+    base = [(2, 1, 1), (3, 2, 2), (4, 3, 1), (2, 2, 3), (5, 1, 2), (3, 4, 2), (6, 2, 1), (4, 1, 3), (7, 1, 1), (17, 1, 1), (24, 2, 2), (33, 1, 1)]
     if tier == "thorough":
         base += [(5, 3, 2), (6, 1, 1), (2, 4, 2), (3, 1, 1), (4, 4, 2), (5, 2, 3), (3, 3, 3), (6, 3, 2), (7, 2, 1), (8, 1, 2)]
     return base
@@ -31,7 +31,7 @@ def _strategy(shapes):
         dim_a = list(draw(st.permutations(rest))) if variant == "explicit" else sorted(rest)
         diag = draw(st.sampled_from([False, False, True]))
         return {"D": D, "R": R, "N": N, "dim_b": dim_b, "dim_a": dim_a, "variant": variant, "diag": diag,
-                "p": draw(gen.measure_params("diag_pdf" if diag else "pdf", R, D, draw(st.sampled_from([10.0, 100.0])), extreme=True)),
+                "p": draw(gen.measure_params("diag_pdf" if diag else "pdf", R, D, draw(st.sampled_from([10.0, 100.0])), extreme="wide" if D >= 17 else True)),
                 "upd": draw(gen.maybe_update("diag_pdf" if diag else "pdf", R, D)),
                 "x": draw(gen.arr((N, D), -3, 3)),
                 # a second, different conditioning set queried on the same object afterwards
@@ -79,7 +79,8 @@ def _run(case):
         ok, c = lib(fails, tag, lambda: p.condition_on_explicit(libx.IDX(bb), libx.IDX(a)))
     if not ok:
         return fails
-    x = np.asarray(case["x"], float)
+    # evaluation points in the density's own units: component 0's mean + z standard deviations
+    x = mu[0] + np.asarray(case["x"], float) * np.sqrt(np.einsum("ii->i", Sig[0]))
     if not _product_rule(fails, c, tag, x, a, bb, mu, Sig, R, N):
         return fails
     if case.get("perm2"):
@@ -122,7 +123,7 @@ def _nontrivial(case):
 def _labels(case):
     b = case["dim_b"]
     return [f"variant={case['variant']}", "b_unsorted" if b != sorted(b) else "b_sorted", f"|b|={len(b)}", f"diag={case['diag']}",
-            "a_unsorted" if case["dim_a"] != sorted(case["dim_a"]) else "a_sorted"]
+            "a_unsorted" if case["dim_a"] != sorted(case["dim_a"]) else "a_sorted", "D>=17" if case["D"] >= 17 else "D<=8"]
 
 
 SUBS = [
